@@ -587,3 +587,99 @@ def tr_ghist(acts):
         ok, st = guarded(lambda: [_gstate(g) for g in pool])
         steps.append({'res': res if ok else 'EXC-in-query:' + excname(st), 'pool': st if ok else []})
     return {'kind': 'ghist', 'acts': acts, 'steps': steps}
+
+
+# ======================================================= transformations (C11, C12)
+def _g3(g):
+    j = ab.graph_to_json(g)
+    return {'top': j['top'], 'xtop': j['xtop'], 'tr': j['tr'], 'epi': j['epi']}
+
+
+def _enc(g, m):
+    out = {'ok': False, 'exc': '', 'tree': {'top': ab.NULL, 'br': [], 'meta': []}, 're': {'ok': False, 'exc': 'not run'},
+           'g2': {'top': ab.NULL, 'tr': []}}
+    ok, tree = guarded(layout.configure, g, model=m)
+    if not ok:
+        out['exc'] = 'Hang' if isinstance(tree, Hang) else excname(tree)
+        return out
+    out['ok'] = True
+    out['tree'] = ab.tree_to_json(tree)
+    ok, text = guarded(penman.format, tree, indent=None)
+    if ok:
+        ok, re_ = guarded(penman.parse, text)
+        if ok:
+            out['re'] = {'ok': True, 'exc': '', 'tree': ab.tree_to_json(re_)}
+            ok, g2 = guarded(layout.interpret, re_, m)
+            if ok:
+                out['g2'] = {'top': ab.atom(g2.top), 'tr': [ab.triple(x) for x in g2.triples]}
+        else:
+            out['re'] = _decode_err(re_, {'ok': False, 'exc': ''})
+    return out
+
+
+def _start_graph(node, m, start):
+    g = layout.interpret(Tree(to_node(node)), m)
+    start = start or {}
+    if start.get('append'):
+        g.triples.append(tuple(start['append']))
+    if start.get('strip'):
+        g = Graph(list(g.triples), top=g.top)
+    if start.get('top'):
+        g.top = start['top']
+    return g
+
+
+_OPS = {'reify_edges': lambda g, m: transform.reify_edges(g, m), 'dereify_edges': lambda g, m: transform.dereify_edges(g, m),
+        'reify_attributes': lambda g, m: transform.reify_attributes(g), 'indicate_branches': lambda g, m: transform.indicate_branches(g, m)}
+
+
+def tr_program(node, ops, model='default', mdl=None, start=None):
+    m = get_model(model, mdl)
+    g = _start_graph(node, m, start)
+    t = _mfields({'kind': 'program', 'g0': _g3(g), 'ops': list(ops), 'steps': []}, model, mdl)
+    for op in ops:
+        before = ab.graph_to_json(g)
+        ok, h = guarded(_OPS[op], g, m)
+        st = {'op': op, 'ok': bool(ok), 'exc': '' if ok else ('Hang' if isinstance(h, Hang) else excname(h)),
+              'unchanged': ab.graph_to_json(g) == before}
+        if not ok:
+            st['g'] = _g3(g)
+            st['enc'] = {'ok': False, 'exc': 'not run', 'tree': {'top': ab.NULL, 'br': [], 'meta': []}, 're': {'ok': False, 'exc': ''}, 'g2': {'top': ab.NULL, 'tr': []}}
+            t['steps'].append(st)
+            break
+        st['g'] = _g3(h)
+        st['enc'] = _enc(h, m)
+        t['steps'].append(st)
+        g = h
+    return t
+
+
+def tr_inverse(node, model='amr', mdl=None, start=None):
+    m = get_model(model, mdl)
+    g = _start_graph(node, m, start)
+    t = _mfields({'kind': 'inverse', 'g': _g3(g), 'g1': _g3(g), 'g2': _g3(g), 'text0': '', 'text2': '', 'exc': ''}, model, mdl)
+
+    def run():
+        codec = penman.PENMANCodec(model=m)
+        t['text0'] = codec.encode(g)
+        g1 = transform.reify_edges(g, m)
+        t['g1'] = _g3(g1)
+        g2 = transform.dereify_edges(g1, m)
+        t['g2'] = _g3(g2)
+        t['text2'] = codec.encode(g2)
+    ok, r = guarded(run)
+    if not ok:
+        t['exc'] = 'Hang' if isinstance(r, Hang) else excname(r)
+    return t
+
+
+def tr_dereify(node, model='amr', mdl=None, start=None):
+    m = get_model(model, mdl)
+    g = _start_graph(node, m, start)
+    t = _mfields({'kind': 'dereify', 'g': _g3(g), 'out': _g3(g), 'exc': ''}, model, mdl)
+    ok, r = guarded(transform.dereify_edges, g, m)
+    if ok:
+        t['out'] = _g3(r)
+    else:
+        t['exc'] = 'Hang' if isinstance(r, Hang) else excname(r)
+    return t
